@@ -358,6 +358,8 @@ class Interp:
             # a module-level constant of the module the current function lives in (a dispatch table, a tuple of names)
             fi_ = env.get("__func__")
             mod_ = getattr(fi_, "module", None)
+            if mod_ is not None and e.id in getattr(mod_, "classes", {}):
+                return ("class", mod_.classes[e.id])
             if mod_ is not None and e.id in getattr(mod_, "assigns", {}):
                 key_ = (mod_.name, e.id)
                 if key_ not in self._modconsts:
